@@ -130,3 +130,4 @@ pub fn sym_game_anylen(endgame_king: bool) -> Game {
     }
     g
 }
+pub fn set_hash(g: &mut Game, h: u64) { g.hash = h; }
